@@ -7,8 +7,8 @@
 mod engine;
 
 use std::cell::RefCell;
-use std::io::{Read, Write};
-use std::process::{Command, Stdio};
+use std::io::{BufRead, BufReader, Write};
+use std::process::{Child, ChildStdin, ChildStdout, Command, Stdio};
 use std::sync::Arc;
 
 use trustfall_core::frontend;
@@ -102,39 +102,128 @@ fn artefacts(request: &Sexp) -> Option<Artefacts> {
     }
 }
 
-/// Digest computed by a fresh process (`<this binary> child`, request on stdin).
-fn child_digest(line: &str) -> Result<String, String> {
-    let exe = std::env::current_exe().map_err(|e| e.to_string())?;
-    let mut child = Command::new(exe)
-        .arg("child")
-        .stdin(Stdio::piped())
-        .stdout(Stdio::piped())
-        .stderr(Stdio::null())
-        .spawn()
-        .map_err(|e| e.to_string())?;
-    child.stdin.take().ok_or("no stdin")?.write_all(line.as_bytes()).map_err(|e| e.to_string())?;
-    let out = child.wait_with_output().map_err(|e| e.to_string())?;
-    if !out.status.success() {
-        return Err(format!("child exited with {}", out.status));
+/// A separate process (`<this binary> child`) answering one digest line per request line. Its hash
+/// seeds differ from the parent's and from every other child's; it is replaced by a fresh process
+/// every `REQUESTS_PER_CHILD` requests (process start-up costs ~50 ms here, two fresh processes per
+/// request would dominate the run).
+struct ChildServer {
+    child: Child,
+    stdin: ChildStdin,
+    stdout: BufReader<ChildStdout>,
+    served: usize,
+}
+
+impl ChildServer {
+    fn spawn() -> Result<ChildServer, String> {
+        let exe = std::env::current_exe().map_err(|e| e.to_string())?;
+        let mut child = Command::new(exe)
+            .arg("child")
+            .stdin(Stdio::piped())
+            .stdout(Stdio::piped())
+            .stderr(Stdio::null())
+            .spawn()
+            .map_err(|e| e.to_string())?;
+        let stdin = child.stdin.take().ok_or("no stdin")?;
+        let stdout = BufReader::new(child.stdout.take().ok_or("no stdout")?);
+        Ok(ChildServer { child, stdin, stdout, served: 0 })
     }
-    Ok(String::from_utf8_lossy(&out.stdout).trim().to_string())
+    fn ask(&mut self, line: &str) -> Result<String, String> {
+        self.stdin.write_all(line.as_bytes()).map_err(|e| e.to_string())?;
+        self.stdin.write_all(b"\n").map_err(|e| e.to_string())?;
+        self.stdin.flush().map_err(|e| e.to_string())?;
+        let mut answer = String::new();
+        let n = self.stdout.read_line(&mut answer).map_err(|e| e.to_string())?;
+        if n == 0 {
+            return Err("child closed its output".into());
+        }
+        self.served += 1;
+        Ok(answer.trim().to_string())
+    }
+}
+
+impl Drop for ChildServer {
+    fn drop(&mut self) {
+        let _ = self.child.kill();
+        let _ = self.child.wait();
+    }
+}
+
+const REQUESTS_PER_CHILD: usize = 40;
+
+thread_local! {
+    static CHILDREN: RefCell<Vec<Option<ChildServer>>> = const { RefCell::new(Vec::new()) };
+}
+
+/// Digest of `line` computed by child process number `slot`.
+fn child_digest(slot: usize, line: &str) -> Result<String, String> {
+    CHILDREN.with(|c| {
+        let mut c = c.borrow_mut();
+        while c.len() <= slot {
+            c.push(None);
+        }
+        if c[slot].as_ref().is_none_or(|s| s.served >= REQUESTS_PER_CHILD) {
+            c[slot] = Some(ChildServer::spawn()?);
+        }
+        match c[slot].as_mut().unwrap().ask(line) {
+            Ok(a) => Ok(a),
+            Err(_) => {
+                // one retry in a brand-new process
+                c[slot] = Some(ChildServer::spawn()?);
+                let r = c[slot].as_mut().unwrap().ask(line);
+                if r.is_err() {
+                    c[slot] = None;
+                }
+                r
+            }
+        }
+    })
 }
 
 fn child_main() {
     install_quiet_panic_hook();
-    let mut line = String::new();
-    std::io::stdin().read_to_string(&mut line).unwrap();
-    match Sexp::parse(line.trim()).as_ref().and_then(artefacts) {
-        Some(a) => println!("{}", a.digest()),
-        None => println!("bad-request"),
+    let stdin = std::io::stdin();
+    let mut out = std::io::stdout();
+    for line in stdin.lock().lines() {
+        let Ok(line) = line else { break };
+        let answer = match guarded(|| Sexp::parse(line.trim()).as_ref().and_then(artefacts)) {
+            Ok(Some(a)) => a.digest(),
+            Ok(None) => "bad-request".to_string(),
+            Err(info) => format!("(child-panic {})", fnv(&info)),
+        };
+        if writeln!(out, "{answer}").is_err() || out.flush().is_err() {
+            break;
+        }
     }
 }
 
 const IN_PROCESS_REPETITIONS: usize = 3;
 const CHILD_PROCESSES: usize = 2;
 
+thread_local! {
+    /// outcome labels of the request evaluated last (so that `post_tags` need not recompute)
+    static LAST_LABELS: RefCell<(String, Vec<String>)> = const { RefCell::new((String::new(), Vec::new())) };
+}
+
+fn labels(a: &Artefacts) -> Vec<String> {
+    let mut t = vec![];
+    if a.rows.starts_with("(rows (row") {
+        t.push("nt:rows".into());
+    }
+    if a.rows.starts_with("panic") || a.ir.starts_with("panic") {
+        t.push("outcome:panic".into());
+    }
+    if a.ir.starts_with("error") {
+        t.push("outcome:error".into());
+        if a.ir.contains("MultipleErrors") || a.ir.matches(";\n").count() >= 2 {
+            t.push("nt:multi-error".into());
+        }
+    }
+    t
+}
+
 fn eval_det(request: &Sexp) -> Option<String> {
     let first = artefacts(request)?;
+    LAST_LABELS.with(|l| *l.borrow_mut() = (request.to_string(), labels(&first)));
     for _ in 1..IN_PROCESS_REPETITIONS {
         let again = artefacts(request)?;
         if again.ir != first.ir {
@@ -149,8 +238,8 @@ fn eval_det(request: &Sexp) -> Option<String> {
     }
     let line = request.to_string();
     let expect = first.digest();
-    for _ in 0..CHILD_PROCESSES {
-        match child_digest(&line) {
+    for slot in 0..CHILD_PROCESSES {
+        match child_digest(slot, &line) {
             Err(_) => return Some("(nondeterministic child-failed)".into()),
             Ok(d) if d == expect => {}
             Ok(d) => {
@@ -315,22 +404,13 @@ impl Prop for C14 {
             .collect()
     }
     fn post_tags(&self, e: &Evaluated) -> Vec<String> {
-        // classify by one more (cheap, in-process) look at the artefacts
         let mut t = vec![format!("answer:{}", e.answer.chars().take(40).collect::<String>())];
-        if let Some(a) = artefacts(&e.request) {
-            if a.rows.starts_with("(rows (row") {
-                t.push("nt:rows".into());
+        LAST_LABELS.with(|l| {
+            let l = l.borrow();
+            if l.0 == e.line {
+                t.extend(l.1.iter().cloned());
             }
-            if a.rows.starts_with("panic") || a.ir.starts_with("panic") {
-                t.push("outcome:panic".into());
-            }
-            if a.ir.starts_with("error") {
-                t.push("outcome:error".into());
-                if a.ir.contains("MultipleErrors") || a.ir.matches(";\n").count() >= 2 {
-                    t.push("nt:multi-error".into());
-                }
-            }
-        }
+        });
         t
     }
     fn extra_stats(&self, _evaluated: &[Evaluated]) -> serde_json::Value {
